@@ -96,6 +96,9 @@ class MonteCarlo(SensitivityAnalysis):
 
         self._results = pd.DataFrame(results)
 
+        # leave the optic in its nominal state, as SensitivityAnalysis does
+        self.tolerancing.reset()
+
     def view_histogram(self, kde=True):
         """
         Displays a histogram of the data.
